@@ -62,7 +62,9 @@ def gen_scripts(ctx, quick):
                               # a high priority microtask may span the start of its module (submitted before Start)
                               "pre": p == "high" and rnd.random() < 0.5})
             pol = ["sched" if a == 0 else "t%d" % a for a in g["policy"]]
-            scripts.append({"tasks": tasks, "threshold": g["threshold"], "expiry": g["expiry"], "policy": pol})
+            scripts.append({"tasks": tasks, "threshold": g["threshold"], "expiry": g["expiry"], "policy": pol,
+                            # every third history with panicking functions: nobody reads the (full) error report channel
+                            "fullReports": len(scripts) % 3 == 0 and any(t["out"] == "panic" for t in tasks)})
     # burst scripts: more waiting microtasks than the clearance queue holds (the driver runs them with
     # GOMAXPROCS=2, i.e. a queue of 200 entries); the limit must still be respected, nothing may be lost
     for k in range(2 if quick else 8):
